@@ -325,8 +325,11 @@ func (e *Exec) Do(st Step) bool {
 	if !st.NoSettle {
 		e.settleAndSnap(false)
 	}
+	// never take the world's lock while holding e.mu: FakeCmd.Start holds the world's lock when it
+	// asks specFor (e.mu) for the behaviour of the launch
+	after := e.W.NumEvents()
 	e.mu.Lock()
-	e.H.Applied[idx].SeqAfter = e.W.NumEvents()
+	e.H.Applied[idx].SeqAfter = after
 	e.mu.Unlock()
 	return ok
 }
